@@ -1,5 +1,6 @@
 pub mod driver;
 pub mod engine;
+pub mod hosts;
 pub mod oracle;
 pub mod spec;
 pub mod sym;
